@@ -1973,4 +1973,9 @@ pub fn run_property(ctx: &mut Ctx) {
             ctx.report.notes.push(format!("no suite registered for {prop}"));
         }
     }
+    // Tests come out of `.dig` files: what a property says about signals, widths, defaults, rows and lines it says about the
+    // tests loaded from one too.  The properties whose own suites do not include the loader run a short pass of it.
+    if !matches!(prop.as_str(), "C09" | "C15" | "C16" | "C19") {
+        crate::dig::suite_dig(ctx, "dig", k(400, 8000));
+    }
 }
